@@ -119,7 +119,11 @@ def run_suites(pid, suites, tier, seed, vh, known, evidence):
         for op, i, m in zip(ops, impl, model):
             total += 1
             try:
-                v = suite.judge(op, i, m)
+                if isinstance(i, dict) and i.get("hung"):
+                    # the harness's last-resort watchdog: a call of the library never returned (blocked in the kernel)
+                    v = Verdict(False, False, "%s; goroutines: %s" % (i["hung"], str(i.get("stacks", ""))[:1500]))
+                else:
+                    v = suite.judge(op, i, m)
             except Exception as e:
                 v = Verdict(False, None, "judge error: %r impl=%s model=%s" % (e, str(i)[:300], str(m)[:300]))
             if suite.nontrivial(op, i, m):
